@@ -11,6 +11,7 @@ func checkC01(c *Ctx) {
 	ruleAlias(c)
 	ruleCursorPair(c)
 	ruleProvOffsets(c)
+	ruleWSSpec(c)
 	ruleLineComplete(c)
 	c.Assume("arithmetic inside padNulls, unpaddedNullLength, lineCount and fillNulls is trusted; ordering and non-overlap of ranges are not decided")
 }
@@ -19,6 +20,7 @@ func checkC08(c *Ctx) {
 	ruleParserLatch(c)
 	ruleSticky(c)
 	ruleReadNUsed(c)
+	ruleReadErrKept(c)
 	ruleLineComplete(c)
 	ruleSameMachine(c)
 	ruleCtor(c)
